@@ -33,7 +33,9 @@ pub fn return_type(lhs: Type, rhs: Type) -> Type {
     let Some(lhs_element) = lhs.element_type() else {
         return lhs;
     };
-    let rhs_element = rhs.element_type().unwrap();
+    let Some(rhs_element) = rhs.element_type() else {
+        return rhs;
+    };
     var_type!([lhs_element | rhs_element])
 }
 
